@@ -244,6 +244,43 @@ end
 
 end Jomini.TextTape
 
+/-! ### `@variables` and `@[…]` interpolated expressions as scalars -/
+namespace Jomini.TextTape
+
+/-- `@name`: unquoted, `@` followed by at least one byte, no boundary byte. -/
+def Scal.IsVar (s : Scal) : Prop :=
+  s.quoted = false ∧ ∃ r, s.bytes = 64 :: r ∧ r ≠ [] ∧ ∀ c ∈ r, isBoundary c = false
+
+/-- `@[ … ]`: unquoted, everything up to and including the first `]` (blanks, operators, braces
+inside are part of the scalar). -/
+def Scal.IsInterp (s : Scal) : Prop :=
+  s.quoted = false ∧ ∃ body, s.bytes = 64 :: 91 :: (body ++ [93]) ∧ ∀ c ∈ body, c ≠ 93
+
+/-- well-formed scalar of fragment 3: an ordinary scalar, a variable or an interpolated expression. -/
+def Scal.ValidX (s : Scal) : Prop := s.Valid ∨ s.IsVar ∨ s.IsInterp
+
+/-- a parameter name `[[name]`: non-empty, no boundary byte. -/
+def IsParamName (name : Bytes) : Prop := name ≠ [] ∧ ∀ c ∈ name, isBoundary c = false
+
+/-- `[[name]` / `[[!name]` -/
+def paramOpen (isU : Bool) (name : Bytes) : Bytes := 91 :: 91 :: ((if isU then [33] else []) ++ (name ++ [93]))
+
+/-- a run of scalars with their blanks (the array part of a mixed container). -/
+def renderElems : List (Bytes × Scal) → Bytes
+  | [] => []
+  | (g, s) :: r => g ++ (s.text ++ renderElems r)
+
+def ElemsValid : List (Bytes × Scal) → Bytes → Prop
+  | [], _ => True
+  | (g, s) :: r, after =>
+    Blank g ∧ s.ValidX ∧ (s.quoted = false → StartsBoundary (renderElems r ++ after)) ∧ ElemsValid r after
+
+def elemToks : List (Bytes × Scal) → Bytes → List Tok
+  | [], _ => []
+  | (_, s) :: r, after => s.tok (renderElems r ++ after) :: elemToks r after
+
+end Jomini.TextTape
+
 /-! ### abstract documents, fragment 3: objects, arrays (of scalars, objects, arrays) and empty
 containers, any depth -/
 namespace Jomini.TextTape
@@ -258,6 +295,13 @@ inductive JVal
   | obj (g g0 : Bytes) (key : Scal) (g1 : Bytes) (op : Op) (v : JVal) (rest : JFields) (gc : Bytes)
   | arrS (g g0 : Bytes) (s0 : Scal) (rest : JVals) (gc : Bytes)
   | arrC (g : Bytes) (first : JVal) (rest : JVals) (gc : Bytes)
+  /-- `g { b1 { b2 } …inside of v… `: a ghost `{}` at the very start of the (braced) value `v`; the
+  parser drops it, the kind of the container not being known yet -/
+  | ghostIn (g b1 b2 : Bytes) (v : JVal)
+  /-- object→array mixed container `{ key op v fields… m0 elems… }`: an object that continues as a
+  bare list of scalars (the first of them, `m0`, is what the parser first takes for a key) -/
+  | mixed (g g0 : Bytes) (key : Scal) (g1 : Bytes) (op : Op) (v : JVal) (rest : JFields)
+      (gm : Bytes) (m0 : Scal) (elems : List (Bytes × Scal)) (gc : Bytes)
 inductive JFields
   | nil
   | cons (g0 : Bytes) (key : Scal) (g1 : Bytes) (op : Op) (v : JVal) (rest : JFields)
@@ -266,6 +310,14 @@ inductive JFields
   | consImp (g0 : Bytes) (key : Scal) (v : JVal) (rest : JFields)
   /-- ghost `{}` in key position: leaves no trace -/
   | ghost (g gc : Bytes) (rest : JFields)
+  /-- `key op h { … }`: an unquoted scalar `h` directly followed by a non-empty container is the
+  header of that container (`rgb { 1 2 3 }`, `hsv { … }`, `LIST { … }`) -/
+  | consHdr (g0 : Bytes) (key : Scal) (g1 : Bytes) (op : Op) (gh : Bytes) (h : Scal) (body : JVal) (rest : JFields)
+  /-- parameter block, value form: `[[name] value ]` / `[[!name] value ]` -/
+  | paramVal (g0 : Bytes) (isU : Bool) (name : Bytes) (g1 : Bytes) (val : Scal) (g2 : Bytes) (rest : JFields)
+  /-- parameter block, object form: `[[name] key op value fields… ]` -/
+  | paramObj (g0 : Bytes) (isU : Bool) (name : Bytes) (g1 : Bytes) (key : Scal) (g2 : Bytes) (op : Op)
+      (v : JVal) (inner : JFields) (gc : Bytes) (rest : JFields)
 inductive JVals
   | nil
   | cons (v : JVal) (rest : JVals)
@@ -279,11 +331,34 @@ def jrenderV : JVal → Bytes
     g ++ 123 :: (g0 ++ (k.text ++ (g1 ++ (o.text ++ (jrenderV v ++ (jrenderF rest ++ (gc ++ [125])))))))
   | .arrS g g0 s0 rest gc => g ++ 123 :: (g0 ++ (s0.text ++ (jrenderVs rest ++ (gc ++ [125]))))
   | .arrC g first rest gc => g ++ 123 :: (jrenderV first ++ (jrenderVs rest ++ (gc ++ [125])))
+  | .ghostIn g b1 b2 v => g ++ 123 :: (b1 ++ 123 :: (b2 ++ 125 :: jinner v))
+  | .mixed g g0 k g1 o v rest gm m0 elems gc =>
+    g ++ 123 :: (g0 ++ (k.text ++ (g1 ++ (o.text ++ (jrenderV v ++ (jrenderF rest ++
+      (gm ++ (m0.text ++ (renderElems elems ++ (gc ++ [125])))))))))) 
+/-- what stands behind the opening `{` of a braced value. -/
+def jinner : JVal → Bytes
+  | .scal _ _ => []
+  | .empty _ gc => gc ++ [125]
+  | .obj _ g0 k g1 o v rest gc =>
+    g0 ++ (k.text ++ (g1 ++ (o.text ++ (jrenderV v ++ (jrenderF rest ++ (gc ++ [125]))))))
+  | .arrS _ g0 s0 rest gc => g0 ++ (s0.text ++ (jrenderVs rest ++ (gc ++ [125])))
+  | .arrC _ first rest gc => jrenderV first ++ (jrenderVs rest ++ (gc ++ [125]))
+  | .ghostIn _ b1 b2 v => b1 ++ 123 :: (b2 ++ 125 :: jinner v)
+  | .mixed _ g0 k g1 o v rest gm m0 elems gc =>
+    g0 ++ (k.text ++ (g1 ++ (o.text ++ (jrenderV v ++ (jrenderF rest ++
+      (gm ++ (m0.text ++ (renderElems elems ++ (gc ++ [125])))))))))
 def jrenderF : JFields → Bytes
   | .nil => []
   | .cons g0 k g1 o v rest => g0 ++ (k.text ++ (g1 ++ (o.text ++ (jrenderV v ++ jrenderF rest))))
   | .consImp g0 k v rest => g0 ++ (k.text ++ (jrenderV v ++ jrenderF rest))
   | .ghost g gc rest => g ++ 123 :: (gc ++ 125 :: jrenderF rest)
+  | .consHdr g0 k g1 o gh h body rest =>
+    g0 ++ (k.text ++ (g1 ++ (o.text ++ (gh ++ (h.text ++ (jrenderV body ++ jrenderF rest))))))
+  | .paramVal g0 isU name g1 val g2 rest =>
+    g0 ++ (paramOpen isU name ++ (g1 ++ (val.text ++ (g2 ++ 93 :: jrenderF rest))))
+  | .paramObj g0 isU name g1 k g2 o v inner gc rest =>
+    g0 ++ (paramOpen isU name ++ (g1 ++ (k.text ++ (g2 ++ (o.text ++ (jrenderV v ++ (jrenderF inner ++
+      (gc ++ 93 :: jrenderF rest))))))))
 def jrenderVs : JVals → Bytes
   | .nil => []
   | .cons v rest => jrenderV v ++ jrenderVs rest
@@ -297,20 +372,24 @@ def JVal.isBraced : JVal → Prop
 /-- a non-empty container (what may stand first in an `arrC`; a leading `{}` would be dropped by
 the parser as a ghost object, the kind of the container not being known yet). -/
 def JVal.isContainer : JVal → Prop
-  | .obj .. | .arrS .. | .arrC .. => True
+  | .obj .. | .arrS .. | .arrC .. | .ghostIn .. | .mixed .. => True
   | _ => False
+
+/-- the blanks in front of a value. -/
+def JVal.gap : JVal → Bytes
+  | .scal g _ | .empty g _ | .obj g .. | .arrS g .. | .arrC g .. | .ghostIn g .. | .mixed g .. => g
 
 mutual
 /-- layout validity of a value followed by `after`. -/
 def JValidV : JVal → Bytes → Prop
-  | .scal g s, after => Blank g ∧ s.Valid ∧ (s.quoted = false → StartsBoundary after)
+  | .scal g s, after => Blank g ∧ s.ValidX ∧ (s.quoted = false → StartsBoundary after)
   | .empty g gc, _ => Blank g ∧ Blank gc
   | .obj g g0 k g1 o v rest gc, after =>
-    Blank g ∧ Blank g0 ∧ Blank g1 ∧ Blank gc ∧ k.Valid ∧
+    Blank g ∧ Blank g0 ∧ Blank g1 ∧ Blank gc ∧ k.ValidX ∧
     (k.quoted = false → StartsBoundary (g1 ++ o.text)) ∧
     JValidV v (jrenderF rest ++ (gc ++ 125 :: after)) ∧ JValidF rest (gc ++ 125 :: after)
   | .arrS g g0 s0 rest gc, after =>
-    Blank g ∧ Blank g0 ∧ Blank gc ∧ s0.Valid ∧
+    Blank g ∧ Blank g0 ∧ Blank gc ∧ s0.ValidX ∧
     (s0.quoted = false → StartsBoundary (jrenderVs rest ++ (gc ++ 125 :: after))) ∧
     -- what follows the first scalar is not an operator (else the container would be an object)
     (∀ d2, skipWs (jrenderVs rest ++ (gc ++ 125 :: after)) = some d2 → firstFieldPeek d2 = false) ∧
@@ -318,16 +397,40 @@ def JValidV : JVal → Bytes → Prop
   | .arrC g first rest gc, after =>
     Blank g ∧ Blank gc ∧ first.isContainer ∧
     JValidV first (jrenderVs rest ++ (gc ++ 125 :: after)) ∧ JValidVs rest (gc ++ 125 :: after)
+  | .ghostIn g b1 b2 v, after =>
+    -- (the blanks `v` carries in front of its own `{` are not rendered: they must be empty)
+    Blank g ∧ Blank b1 ∧ Blank b2 ∧ v.isBraced ∧ v.gap = [] ∧ JValidV v after
+  | .mixed g g0 k g1 o v rest gm m0 elems gc, after =>
+    let E := renderElems elems ++ (gc ++ 125 :: after)
+    Blank g ∧ Blank g0 ∧ Blank g1 ∧ Blank gm ∧ Blank gc ∧ k.ValidX ∧
+    (k.quoted = false → StartsBoundary (g1 ++ o.text)) ∧
+    JValidV v (jrenderF rest ++ (gm ++ (m0.text ++ E))) ∧ JValidF rest (gm ++ (m0.text ++ E)) ∧
+    m0.ValidX ∧ (m0.quoted = false → StartsBoundary E) ∧
+    -- what follows `m0` is neither an operator nor a `{` (else `m0` would be a key)
+    (∀ d2, skipWs E = some d2 → lexOperator true d2 = none ∧ d2.head? ≠ some 123) ∧
+    ElemsValid elems (gc ++ 125 :: after)
 def JValidF : JFields → Bytes → Prop
   | .nil, _ => True
   | .cons g0 k g1 o v rest, after =>
-    Blank g0 ∧ Blank g1 ∧ k.Valid ∧ (k.quoted = false → StartsBoundary (g1 ++ o.text)) ∧
+    Blank g0 ∧ Blank g1 ∧ k.ValidX ∧ (k.quoted = false → StartsBoundary (g1 ++ o.text)) ∧
     JValidV v (jrenderF rest ++ after) ∧ JValidF rest after
   | .consImp g0 k v rest, after =>
-    Blank g0 ∧ k.Valid ∧ v.isBraced ∧
+    Blank g0 ∧ k.ValidX ∧ v.isBraced ∧
     (k.quoted = false → StartsBoundary (jrenderV v ++ (jrenderF rest ++ after))) ∧
     JValidV v (jrenderF rest ++ after) ∧ JValidF rest after
   | .ghost g gc rest, after => Blank g ∧ Blank gc ∧ JValidF rest after
+  | .consHdr g0 k g1 o gh h body rest, after =>
+    Blank g0 ∧ Blank g1 ∧ Blank gh ∧ k.ValidX ∧ (k.quoted = false → StartsBoundary (g1 ++ o.text)) ∧
+    h.Valid ∧ h.quoted = false ∧ StartsBoundary (jrenderV body ++ (jrenderF rest ++ after)) ∧
+    body.isContainer ∧ JValidV body (jrenderF rest ++ after) ∧ JValidF rest after
+  | .paramVal g0 isU name g1 val g2 rest, after =>
+    Blank g0 ∧ Blank g1 ∧ Blank g2 ∧ IsParamName name ∧ val.Valid ∧ val.quoted = false ∧
+    StartsBoundary (g2 ++ 93 :: (jrenderF rest ++ after)) ∧ JValidF rest after
+  | .paramObj g0 isU name g1 k g2 o v inner gc rest, after =>
+    Blank g0 ∧ Blank g1 ∧ Blank g2 ∧ Blank gc ∧ IsParamName name ∧ k.Valid ∧ k.quoted = false ∧
+    StartsBoundary (g2 ++ o.text) ∧
+    JValidV v (jrenderF inner ++ (gc ++ 93 :: (jrenderF rest ++ after))) ∧
+    JValidF inner (gc ++ 93 :: (jrenderF rest ++ after)) ∧ JValidF rest after
 def JValidVs : JVals → Bytes → Prop
   | .nil, _ => True
   | .cons v rest, after => JValidV v (jrenderVs rest ++ after) ∧ JValidVs rest after
@@ -340,11 +443,16 @@ def jcntV : JVal → Nat
   | .obj _ _ _ _ o v rest _ => 2 + (1 + o.toks.length + jcntV v) + jcntF rest
   | .arrS _ _ _ rest _ => 2 + 1 + jcntVs rest
   | .arrC _ first rest _ => 2 + jcntV first + jcntVs rest
+  | .ghostIn _ _ _ v => jcntV v
+  | .mixed _ _ _ _ o v rest _ _ elems _ => 2 + (1 + o.toks.length + jcntV v) + jcntF rest + 2 + elems.length
 def jcntF : JFields → Nat
   | .nil => 0
   | .cons _ _ _ o v rest => (1 + o.toks.length + jcntV v) + jcntF rest
   | .consImp _ _ v rest => (1 + jcntV v) + jcntF rest
   | .ghost _ _ rest => jcntF rest
+  | .consHdr _ _ _ o _ _ body rest => (1 + o.toks.length + (1 + jcntV body)) + jcntF rest
+  | .paramVal _ _ _ _ _ _ rest => 2 + jcntF rest
+  | .paramObj _ _ _ _ _ _ o v inner _ rest => (3 + (1 + o.toks.length + jcntV v) + jcntF inner) + jcntF rest
 def jcntVs : JVals → Nat
   | .nil => 0
   | .cons v rest => jcntV v + jcntVs rest
@@ -372,6 +480,16 @@ def jtapeV : JVal → Nat → Bytes → List Tok
       (jtapeV first (base + 1) (jrenderVs rest ++ (gc ++ 125 :: after)) ++
         jtapeVs rest (base + 1 + jcntV first) (gc ++ 125 :: after)) ++
       [.endTok base]
+  | .ghostIn _ _ _ v, base, after => jtapeV v base after
+  | .mixed _ _ k g1 o v rest gm m0 elems gc, base, after =>
+    let E := renderElems elems ++ (gc ++ 125 :: after)
+    let tail := jrenderF rest ++ (gm ++ (m0.text ++ E))
+    [.object (base + 1 + (1 + o.toks.length + jcntV v) + jcntF rest + 2 + elems.length) true] ++
+      ([k.tok (g1 ++ (o.text ++ (jrenderV v ++ tail)))] ++ o.toks ++
+        jtapeV v (base + 1 + 1 + o.toks.length) tail ++
+        jtapeF rest (base + 1 + (1 + o.toks.length + jcntV v)) (gm ++ (m0.text ++ E)) ++
+        [.mixedContainer, m0.tok E] ++ elemToks elems (gc ++ 125 :: after)) ++
+      [.endTok base]
 def jtapeF : JFields → Nat → Bytes → List Tok
   | .nil, _, _ => []
   | .cons _ k g1 o v rest, base, after =>
@@ -382,6 +500,27 @@ def jtapeF : JFields → Nat → Bytes → List Tok
     [k.tok (jrenderV v ++ (jrenderF rest ++ after))] ++
       jtapeV v (base + 1) (jrenderF rest ++ after) ++ jtapeF rest (base + (1 + jcntV v)) after
   | .ghost _ _ rest, base, after => jtapeF rest base after
+  | .consHdr _ k g1 o gh h body rest, base, after =>
+    let Z := jrenderV body ++ (jrenderF rest ++ after)
+    [k.tok (g1 ++ (o.text ++ (gh ++ (h.text ++ Z))))] ++ o.toks ++
+      [.header ⟨h.bytes.length + Z.length, h.bytes⟩] ++
+      jtapeV body (base + 1 + o.toks.length + 1) (jrenderF rest ++ after) ++
+      jtapeF rest (base + (1 + o.toks.length + (1 + jcntV body))) after
+  | .paramVal _ isU name g1 val g2 rest, base, after =>
+    let R := jrenderF rest ++ after
+    [paramTok isU ⟨(name ++ 93 :: (g1 ++ (val.text ++ (g2 ++ 93 :: R)))).length, name⟩,
+      .unquoted ⟨(val.text ++ (g2 ++ 93 :: R)).length, val.bytes⟩] ++ jtapeF rest (base + 2) after
+  | .paramObj _ isU name g1 k g2 o v inner gc rest, base, after =>
+    let R := jrenderF rest ++ after
+    let tail := jrenderF inner ++ (gc ++ 93 :: R)
+    let Y := g1 ++ (k.text ++ (g2 ++ (o.text ++ (jrenderV v ++ tail))))
+    [paramTok isU ⟨(name ++ 93 :: Y).length, name⟩,
+      .object (base + 2 + (1 + o.toks.length + jcntV v) + jcntF inner) false,
+      .unquoted ⟨(k.text ++ (g2 ++ (o.text ++ (jrenderV v ++ tail)))).length, k.bytes⟩] ++ o.toks ++
+      jtapeV v (base + 3 + o.toks.length) tail ++
+      jtapeF inner (base + 2 + (1 + o.toks.length + jcntV v)) (gc ++ 93 :: R) ++
+      [.endTok (base + 1)] ++
+      jtapeF rest (base + ((3 + (1 + o.toks.length + jcntV v) + jcntF inner))) after
 def jtapeVs : JVals → Nat → Bytes → List Tok
   | .nil, _, _ => []
   | .cons v rest, base, after =>
@@ -396,11 +535,16 @@ def jstepsV : JVal → Nat
   | .obj _ _ _ _ _ v rest _ => 3 + jstepsV v + jstepsF rest + 1
   | .arrS _ _ _ rest _ => 2 + jstepsVs rest + 1
   | .arrC _ first rest _ => 2 + jstepsV first + jstepsVs rest + 1
+  | .ghostIn _ _ _ v => 1 + jstepsV v
+  | .mixed _ _ _ _ _ v rest _ _ elems _ => 3 + jstepsV v + jstepsF rest + 2 + elems.length + 1
 def jstepsF : JFields → Nat
   | .nil => 0
   | .cons _ _ _ _ v rest => 2 + jstepsV v + jstepsF rest
   | .consImp _ _ v rest => 2 + jstepsV v + jstepsF rest
   | .ghost _ _ rest => 1 + jstepsF rest
+  | .consHdr _ _ _ _ _ _ body rest => 3 + jstepsV body + jstepsF rest
+  | .paramVal _ _ _ _ _ _ rest => 1 + jstepsF rest
+  | .paramObj _ _ _ _ _ _ _ v inner _ rest => 2 + jstepsV v + jstepsF inner + 1 + jstepsF rest
 def jstepsVs : JVals → Nat
   | .nil => 0
   | .cons v rest => jstepsV v + jstepsVs rest
@@ -418,9 +562,17 @@ inductive KVal
   | empty
   | obj (fs : KFields)
   | arr (vs : KVals)
+  /-- a container with a header (`rgb { … }`) -/
+  | hdr (h : Bytes) (body : KVal)
+  /-- object→array mixed container: fields, then bare scalars -/
+  | mixed (fs : KFields) (vs : List Scal)
 inductive KFields
   | nil
   | cons (key : Scal) (op : Op) (v : KVal) (rest : KFields)
+  /-- parameter block, value form -/
+  | paramVal (isU : Bool) (name : Bytes) (val : Scal) (rest : KFields)
+  /-- parameter block, object form -/
+  | paramObj (isU : Bool) (name : Bytes) (fs : KFields) (rest : KFields)
 inductive KVals
   | nil
   | cons (v : KVal) (rest : KVals)
@@ -433,11 +585,19 @@ def kcontentV : JVal → KVal
   | .obj _ _ k _ o v rest _ => .obj (.cons k o (kcontentV v) (kcontentF rest))
   | .arrS _ _ s0 rest _ => .arr (.cons (.scal s0) (kcontentVs rest))
   | .arrC _ first rest _ => .arr (.cons (kcontentV first) (kcontentVs rest))
+  | .ghostIn _ _ _ v => kcontentV v
+  | .mixed _ _ k _ o v rest _ m0 elems _ =>
+    .mixed (.cons k o (kcontentV v) (kcontentF rest)) (m0 :: elems.map (·.2))
 def kcontentF : JFields → KFields
   | .nil => .nil
   | .cons _ k _ o v rest => .cons k o (kcontentV v) (kcontentF rest)
   | .consImp _ k v rest => .cons k .eq (kcontentV v) (kcontentF rest)
   | .ghost _ _ rest => kcontentF rest
+  | .consHdr _ k _ o _ h body rest => .cons k o (.hdr h.bytes (kcontentV body)) (kcontentF rest)
+  | .paramVal _ isU name _ val _ rest => .paramVal isU name val (kcontentF rest)
+  | .paramObj _ isU name _ k _ o v inner _ rest =>
+    -- (the first key of a parameter block is read as an unquoted scalar whatever it looks like)
+    .paramObj isU name (.cons ⟨false, k.bytes⟩ o (kcontentV v) (kcontentF inner)) (kcontentF rest)
 def kcontentVs : JVals → KVals
   | .nil => .nil
   | .cons v rest => .cons (kcontentV v) (kcontentVs rest)
@@ -449,9 +609,13 @@ def kcntV : KVal → Nat
   | .empty => 2
   | .obj fs => 2 + kcntF fs
   | .arr vs => 2 + kcntVs vs
+  | .hdr _ body => 1 + kcntV body
+  | .mixed fs vs => 2 + kcntF fs + 1 + vs.length
 def kcntF : KFields → Nat
   | .nil => 0
   | .cons _ o v rest => (1 + o.toks.length + kcntV v) + kcntF rest
+  | .paramVal _ _ _ rest => 2 + kcntF rest
+  | .paramObj _ _ fs rest => (3 + kcntF fs) + kcntF rest
 def kcntVs : KVals → Nat
   | .nil => 0
   | .cons v rest => kcntV v + kcntVs rest
@@ -465,11 +629,20 @@ def ktapeV : KVal → Nat → List Tok
   | .empty, base => [.array (base + 1) false, .endTok base]
   | .obj fs, base => [.object (base + 1 + kcntF fs) false] ++ ktapeF fs (base + 1) ++ [.endTok base]
   | .arr vs, base => [.array (base + 1 + kcntVs vs) false] ++ ktapeVs vs (base + 1) ++ [.endTok base]
+  | .hdr h body, base => [.header ⟨0, h⟩] ++ ktapeV body (base + 1)
+  | .mixed fs vs, base =>
+    [.object (base + 1 + kcntF fs + 1 + vs.length) true] ++ ktapeF fs (base + 1) ++
+      [.mixedContainer] ++ vs.map (fun s => (s.tok []).erase) ++ [.endTok base]
 def ktapeF : KFields → Nat → List Tok
   | .nil, _ => []
   | .cons k o v rest, base =>
     [(k.tok []).erase] ++ o.toks ++ ktapeV v (base + 1 + o.toks.length) ++
       ktapeF rest (base + (1 + o.toks.length + kcntV v))
+  | .paramVal isU name val rest, base =>
+    [paramTok isU ⟨0, name⟩, .unquoted ⟨0, val.bytes⟩] ++ ktapeF rest (base + 2)
+  | .paramObj isU name fs rest, base =>
+    [paramTok isU ⟨0, name⟩, .object (base + 2 + kcntF fs) false] ++ ktapeF fs (base + 2) ++
+      [.endTok (base + 1)] ++ ktapeF rest (base + (3 + kcntF fs))
 def ktapeVs : KVals → Nat → List Tok
   | .nil, _ => []
   | .cons v rest, base => ktapeV v base ++ ktapeVs rest (base + kcntV v)
